@@ -169,6 +169,30 @@ Proof.
   - exists 3%nat. split; vm_compute; reflexivity.
 Qed.
 
+(* ------------------------------------------------------------------ tuples, sets, fixed-length arrays
+   `Pt`: a pair of numbers (tuple), `Q.tags`: a set of strings, `Q.rgb`: [u8; 3], `Q.at`: a reference to the
+   tuple.  T_seq is the real dump (corpus/convert/seq_example.json). *)
+Definition D_seq : defs := [([80; 116]%N, (SObj (Some [TArray]) None None None (mkNumv None None None None None) (mkStrv None None None) ItemsTuple [(SObj (Some [TNumber]) None None None (mkNumv None None None None None) (mkStrv None None None) ItemsAbsent (@nil schema) None None None false (@nil (ustring * schema)) (@nil ustring) None None None None None None None None None None); (SObj (Some [TNumber]) None None None (mkNumv None None None None None) (mkStrv None None None) ItemsAbsent (@nil schema) None None None false (@nil (ustring * schema)) (@nil ustring) None None None None None None None None None None)] None (Some 2%N) (Some 2%N) false (@nil (ustring * schema)) (@nil ustring) None None None None None None None None None None)); ([81]%N, (SObj (Some [TObject]) None None None (mkNumv None None None None None) (mkStrv None None None) ItemsAbsent (@nil schema) None None None false [([97; 116]%N, (SObj None None None None (mkNumv None None None None None) (mkStrv None None None) ItemsAbsent (@nil schema) None None None false (@nil (ustring * schema)) (@nil ustring) None None None None None None None (Some [80; 116]%N) None None)); ([114; 103; 98]%N, (SObj (Some [TArray]) None None None (mkNumv None None None None None) (mkStrv None None None) ItemsSingle [(SObj (Some [TInteger]) (Some [117; 105; 110; 116; 56]%N) None None (mkNumv None None None None None) (mkStrv None None None) ItemsAbsent (@nil schema) None None None false (@nil (ustring * schema)) (@nil ustring) None None None None None None None None None None)] None (Some 3%N) (Some 3%N) false (@nil (ustring * schema)) (@nil ustring) None None None None None None None None None None)); ([116; 97; 103; 115]%N, (SObj (Some [TArray]) None None None (mkNumv None None None None None) (mkStrv None None None) ItemsSingle [(SObj (Some [TString]) None None None (mkNumv None None None None None) (mkStrv None None None) ItemsAbsent (@nil schema) None None None false (@nil (ustring * schema)) (@nil ustring) None None None None None None None None None None)] None None None true (@nil (ustring * schema)) (@nil ustring) None None None None None None None None None None))] [[97; 116]%N; [114; 103; 98]%N] None None None None None None None None None None))].
+Definition T_seq : space := (mkSpace [(1%N, (mkEntry (DNewtype [80; 116]%N None 4%N CNone) (@nil ustring))); (2%N, (mkEntry (DStruct [81]%N None [(mkProp [97; 116]%N RNone PRequired 1%N); (mkProp [114; 103; 98]%N RNone PRequired 6%N); (mkProp [116; 97; 103; 115]%N RNone POptional 9%N)] false) (@nil ustring))); (3%N, (mkEntry (DFloat [102; 54; 52]%N) (@nil ustring))); (4%N, (mkEntry (DTuple [3%N; 3%N]) (@nil ustring))); (5%N, (mkEntry (DInteger [117; 56]%N) (@nil ustring))); (6%N, (mkEntry (DArray 5%N 3%N) (@nil ustring))); (7%N, (mkEntry DString (@nil ustring))); (8%N, (mkEntry (DSet 7%N) (@nil ustring))); (9%N, (mkEntry (DOption 8%N) (@nil ustring)))] 10%N (mkSettings None (@nil ustring) false [58; 58; 32; 115; 116; 100; 32; 58; 58; 32; 99; 111; 108; 108; 101; 99; 116; 105; 111; 110; 115; 32; 58; 58; 32; 72; 97; 115; 104; 77; 97; 112]%N) false false false false (@nil ustring)).
+Definition v_seq_ok : json := (JObj [([97; 116]%N, (JArr [(JInt (1)%Z); (JFlt (Qmake (5)%Z 2%positive))])); ([114; 103; 98]%N, (JArr [(JInt (0)%Z); (JInt (128)%Z); (JInt (255)%Z)])); ([116; 97; 103; 115]%N, (JArr [(JStr [97]%N); (JStr [98]%N)]))]).
+
+Example C02F_seq_in_frag : in_frag Sanitize.ascii_classes D_seq = true.
+Proof. vm_compute. reflexivity. Qed.
+
+Example C02F_seq_convert : convert_doc Sanitize.ascii_classes D_seq = Some T_seq.
+Proof. vm_compute. reflexivity. Qed.
+
+Example C02F_seq_accepted : exists f, de no_re no_re T_seq f 2%N v_seq_ok <> None.
+Proof.
+  apply (C02F_fragment_sound Sanitize.ascii_classes no_re no_re no_re D_seq T_seq) with (r := [81]%N).
+  - intros f n s _ H. discriminate H.
+  - exact C02F_seq_in_frag.
+  - exact C02F_seq_convert.
+  - vm_compute. right. left. reflexivity.
+  - vm_compute. reflexivity.
+  - exists 3%nat. split; vm_compute; reflexivity.
+Qed.
+
 (* a by-value cycle (needs a Box from break_cycles) is outside the fragment *)
 Example C02F_cycle_out : in_frag Sanitize.ascii_classes D_cycle = false.
 Proof. vm_compute. reflexivity. Qed.
